@@ -2063,3 +2063,280 @@ Proof.
   destruct (result_shape drift tv maxcap per from to peers evs res H1 H2 H3 H4 H5) as (_ & _ & _ & _ & E).
   exact E.
 Qed.
+
+(** * A type-level Verify that may panic *)
+
+Section panics.
+Variables (drift : Z) (tvp : hdr -> hdr -> tvres_p).
+Notation rtv := (recovered tvp).
+
+Lemma Verify_p_spec now t u :
+  match Verify_p now drift tvp t u with
+  | Some x => x = Verify now drift rtv t u
+  | None => Verify now drift rtv t u <> None
+  end.
+Proof.
+  unfold Verify_p. destruct (verify_mand now drift t u) eqn:Hm; [reflexivity|].
+  destruct (tvp t u) eqn:Htv; [reflexivity|].
+  unfold Verify, recovered. rewrite Hm, Htv. discriminate.
+Qed.
+
+Lemma loop_p_spec now : forall l first t,
+  match verify_range_loop_p now drift tvp first t l with
+  | Some x => x = verify_range_loop now drift rtv first t l
+  | None => snd (verify_range_loop now drift rtv first t l) <> None
+  end.
+Proof.
+  induction l as [|u r IH]; intros first t; cbn [verify_range_loop_p verify_range_loop]; [reflexivity|].
+  pose proof (Verify_p_spec now t u) as Hv.
+  destruct (Verify_p now drift tvp t u) as [[e|]|].
+  - rewrite <- Hv. reflexivity.
+  - rewrite <- Hv. destruct (negb first && negb (wrap64 (h_height t + 1) =? h_height u)); [reflexivity|].
+    specialize (IH false u). destruct (verify_range_loop_p now drift tvp false u r) as [[v e]|].
+    + rewrite <- IH. reflexivity.
+    + destruct (verify_range_loop now drift rtv false u r) as [v e]. cbn in *. exact IH.
+  - destruct (Verify now drift rtv t u); [cbn; discriminate | contradiction].
+Qed.
+
+(** a panic of the type-level Verify while an answer is processed = a rejection of that answer *)
+Lemma do_request_p_eq now from r fs :
+  do_request_p now drift tvp from r fs = do_request now drift rtv from r fs.
+Proof.
+  unfold do_request_p, do_request.
+  destruct (process_responses (takeN (r_amount r) fs)) as [e|hs]; [reflexivity|].
+  unfold session_verify_p, session_verify. destruct (h_nil from); [reflexivity|].
+  unfold VerifyRange_p, VerifyRange. destruct hs as [|h0 hs]; [reflexivity|].
+  pose proof (loop_p_spec now (h0 :: hs) true from) as Hl.
+  destruct (verify_range_loop_p now drift tvp true from (h0 :: hs)) as [[v e]|].
+  - rewrite <- Hl. reflexivity.
+  - destruct (verify_range_loop now drift rtv true from (h0 :: hs)) as [v [e|]]; [reflexivity|].
+    cbn in Hl. contradiction.
+Qed.
+
+Lemma boundaries_p_spec now : forall cs prev,
+  boundaries_p now drift tvp prev cs = boundaries now drift rtv prev cs \/
+  (boundaries_p now drift tvp prev cs = BPanic /\ boundaries now drift rtv prev cs = BErr).
+Proof.
+  induction cs as [|c r IH]; intros prev; cbn [boundaries_p boundaries]; [left; reflexivity|].
+  destruct prev as [|p0 prev']; [left; reflexivity|]. destruct c as [|u c']; [left; reflexivity|].
+  pose proof (Verify_p_spec now (last (p0 :: prev') hdr_nil) u) as Hv.
+  destruct (Verify_p now drift tvp (last (p0 :: prev') hdr_nil) u) as [[e|]|].
+  - rewrite <- Hv. left. reflexivity.
+  - rewrite <- Hv. apply IH.
+  - right. split; [reflexivity|]. destruct (Verify now drift rtv (last (p0 :: prev') hdr_nil) u); [reflexivity | contradiction].
+Qed.
+
+Lemma finish_p_spec now from coll chunks :
+  finish_p now drift tvp from coll chunks = finish now drift rtv from coll chunks \/
+  (finish_p now drift tvp from coll chunks = RPanic /\ finish now drift rtv from coll chunks = RErr ENotChain).
+Proof.
+  unfold finish_p, finish, verify_chunk_boundaries_p, verify_chunk_boundaries.
+  destruct (h_nil from); [left; reflexivity|]. destruct (existsb is_nil chunks); [left; reflexivity|].
+  destruct (sort_c chunks) as [|c r]; [left; reflexivity|].
+  destruct (boundaries_p_spec now r c) as [->|[-> ->]]; [left; reflexivity | right; split; reflexivity].
+Qed.
+
+Lemma Verify_p_nopanic now t u : tvp t u <> TVPanics -> Verify_p now drift tvp t u = Some (Verify now drift rtv t u).
+Proof. intros H. unfold Verify_p. destruct (verify_mand now drift t u); [reflexivity|]. destruct (tvp t u); [reflexivity | contradiction]. Qed.
+
+Lemma boundaries_p_nopanic now : (forall t u, tvp t u <> TVPanics) -> forall cs prev,
+  boundaries_p now drift tvp prev cs = boundaries now drift rtv prev cs.
+Proof.
+  intros Hnp. induction cs as [|c r IH]; intros prev; cbn [boundaries_p boundaries]; [reflexivity|].
+  destruct prev as [|p0 prev']; [reflexivity|]. destruct c as [|u c']; [reflexivity|].
+  rewrite Verify_p_nopanic by apply Hnp.
+  destruct (Verify now drift rtv (last (p0 :: prev') hdr_nil) u); [reflexivity | apply IH].
+Qed.
+
+Variables (maxcap : N) (from : hdr).
+
+Lemma run_p_nopanic : (forall t u, tvp t u <> TVPanics) -> forall evs s,
+  run_p drift tvp maxcap from s evs = run drift rtv maxcap from s evs.
+Proof.
+  intros Hnp.
+  assert (Hstep : forall s ev, step_p drift tvp maxcap from s ev = step drift rtv maxcap from s ev).
+  { intros s ev. unfold step_p, step. destruct (s_res s); [reflexivity|].
+    destruct ev as [p r|p now fs| |]; try reflexivity.
+    destruct (take_flight p (s_flight s)) as [[r fl]|]; [|reflexivity].
+    rewrite do_request_p_eq. destruct (do_request now drift rtv from r fs) as [e|h|]; try reflexivity.
+    destruct (if 0 <? remaining r h then _ else _); [reflexivity|].
+    destruct (_ <=? _); [|reflexivity].
+    unfold finish_p, finish, verify_chunk_boundaries_p, verify_chunk_boundaries.
+    destruct (h_nil from); [reflexivity|]. destruct (existsb is_nil _); [reflexivity|].
+    destruct (sort_c _) as [|c0 r0]; [reflexivity|].
+    rewrite (boundaries_p_nopanic now Hnp). reflexivity. }
+  induction evs as [|ev evs IH]; intros s; [reflexivity|]. cbn [run_p run]. rewrite Hstep. apply IH.
+Qed.
+
+(** the two runs go together until a panic in the boundary check, where the recovered run
+    reports the broken chain *)
+Lemma step_p_spec s ev :
+  step_p drift tvp maxcap from s ev = step drift rtv maxcap from s ev \/
+  (s_res (step_p drift tvp maxcap from s ev) = Some RPanic /\
+   s_res (step drift rtv maxcap from s ev) = Some (RErr ENotChain)).
+Proof.
+  unfold step_p, step. destruct (s_res s); [left; reflexivity|].
+  destruct ev as [p r|p now fs| |]; try (left; reflexivity).
+  destruct (take_flight p (s_flight s)) as [[r fl]|]; [|left; reflexivity].
+  rewrite do_request_p_eq. destruct (do_request now drift rtv from r fs) as [e|h|]; try (left; reflexivity).
+  destruct (if 0 <? remaining r h then _ else _) as [bad|rq]; [left; reflexivity|].
+  destruct (s_amount s <=? N.of_nat (length (s_coll s ++ h))); [|left; reflexivity].
+  destruct (finish_p_spec now from (s_coll s ++ h) (s_chunks s ++ [h])) as [->|[-> ->]]; [left; reflexivity|].
+  right. split; reflexivity.
+Qed.
+
+Lemma run_p_done s evs r : s_res s = Some r -> run_p drift tvp maxcap from s evs = s.
+Proof.
+  revert s. induction evs as [|ev evs IH]; intros s Hr; [reflexivity|].
+  cbn [run_p]. assert (Hs : step_p drift tvp maxcap from s ev = s) by (unfold step_p; rewrite Hr; reflexivity).
+  rewrite Hs. apply IH. exact Hr.
+Qed.
+
+Lemma run_p_spec evs : forall s,
+  run_p drift tvp maxcap from s evs = run drift rtv maxcap from s evs \/
+  (s_res (run_p drift tvp maxcap from s evs) = Some RPanic /\
+   s_res (run drift rtv maxcap from s evs) = Some (RErr ENotChain)).
+Proof.
+  induction evs as [|ev evs IH]; intros s; [left; reflexivity|].
+  cbn [run_p run]. destruct (step_p_spec s ev) as [->|[H1 H2]]; [apply IH|].
+  right. rewrite (run_p_done _ _ _ H1), (run_done _ _ _ _ _ _ _ H2). split; assumption.
+Qed.
+
+End panics.
+
+(** the outcome with a panicking verifier, in terms of the outcome with its panics recovered *)
+Theorem outcome_p_spec drift tvp maxcap per from to peers evs :
+  GetRangeByHeight_p drift tvp maxcap per from to peers evs =
+  GetRangeByHeight drift (recovered tvp) maxcap per from to peers evs \/
+  (GetRangeByHeight_p drift tvp maxcap per from to peers evs = Some RPanic /\
+   GetRangeByHeight drift (recovered tvp) maxcap per from to peers evs = Some (RErr ENotChain)).
+Proof.
+  unfold GetRangeByHeight_p, GetRangeByHeight.
+  destruct (run_p_spec drift tvp maxcap from evs (get_range maxcap per from to peers)) as [->|H]; [left; reflexivity | right; exact H].
+Qed.
+
+(** [u] passed Verify against [t] at the clock reading of one of the answers (a panic is not a pass) *)
+Definition verified_during_p drift (tvp : hdr -> hdr -> tvres_p) (evs : list event) (t u : hdr) : Prop :=
+  exists now, In now (evs_nows evs) /\ Verify_p now drift tvp t u = Some None.
+
+Lemma verified_during_p_iff drift tvp evs t u :
+  verified_during drift (recovered tvp) evs t u -> verified_during_p drift tvp evs t u.
+Proof.
+  intros (now & Hin & Hv). exists now. split; [exact Hin|].
+  pose proof (Verify_p_spec drift tvp now t u) as Hs.
+  destruct (Verify_p now drift tvp t u) as [x|]; [rewrite Hs, Hv; reflexivity | contradiction].
+Qed.
+
+Theorem result_heights_p drift tvp maxcap per from to peers evs res :
+  h_nil from = false -> h_height from < two64 -> to < two64 -> 1 <= per ->
+  GetRangeByHeight_p drift tvp maxcap per from to peers evs = Some (ROk res) ->
+  h_height from + 1 < to /\
+  res <> [] /\
+  map h_height res = seqN (h_height from + 1) (N.to_nat (to - (h_height from + 1))) /\
+  (forall h, In h res -> h_height h < to /\ h_ok h = true /\ In h (evs_hdrs evs)).
+Proof.
+  intros H1 H2 H3 H4 H5.
+  destruct (outcome_p_spec drift tvp maxcap per from to peers evs) as [E|[E _]]; [|congruence].
+  rewrite E in H5. exact (result_heights _ _ _ _ _ _ _ _ _ H1 H2 H3 H4 H5).
+Qed.
+
+Theorem result_verified_p drift tvp maxcap per from to peers evs res :
+  h_nil from = false -> h_height from < two64 -> to < two64 -> 1 <= per ->
+  GetRangeByHeight_p drift tvp maxcap per from to peers evs = Some (ROk res) ->
+  chain (verified_during_p drift tvp evs) from res.
+Proof.
+  intros H1 H2 H3 H4 H5.
+  destruct (outcome_p_spec drift tvp maxcap per from to peers evs) as [E|[E _]]; [|congruence].
+  rewrite E in H5. eapply chain_mono; [|exact (result_verified _ _ _ _ _ _ _ _ _ H1 H2 H3 H4 H5)].
+  intros a b. apply verified_during_p_iff.
+Qed.
+
+Theorem degenerate_is_error_p drift tvp maxcap per from to peers evs :
+  h_height from < two64 -> to <= h_height from + 1 ->
+  GetRangeByHeight_p drift tvp maxcap per from to peers evs = Some (RErr ERangeMixUp).
+Proof.
+  intros H1 H2.
+  destruct (outcome_p_spec drift tvp maxcap per from to peers evs) as [E|[_ E]].
+  - rewrite E. apply degenerate_is_error; assumption.
+  - rewrite (degenerate_is_error _ _ _ _ _ _ _ _ H1 H2) in E. discriminate.
+Qed.
+
+(** the only way an answer can crash the client: the type-level Verify panicking in the
+    chunk-boundary check (with that panic recovered the run ends with the chain error) *)
+Theorem crash_only_in_boundary_check drift tvp maxcap per from to peers evs :
+  h_nil from = false -> h_height from < two64 -> to < two64 -> 1 <= per ->
+  to - (h_height from + 1) <= maxcap ->
+  GetRangeByHeight_p drift tvp maxcap per from to peers evs <> Some RFuel /\
+  (GetRangeByHeight_p drift tvp maxcap per from to peers evs = Some RPanic ->
+   GetRangeByHeight drift (recovered tvp) maxcap per from to peers evs = Some (RErr ENotChain)).
+Proof.
+  intros H1 H2 H3 H4 H5.
+  destruct (no_response_crashes drift (recovered tvp) maxcap per from to peers evs H1 H2 H3 H4 H5) as [Hp Hf].
+  destruct (outcome_p_spec drift tvp maxcap per from to peers evs) as [E|[E1 E2]].
+  - rewrite E. split; [exact Hf|]. intros Hx. contradiction.
+  - split; [rewrite E1; discriminate|]. intros _. exact E2.
+Qed.
+
+(** with a header type whose Verify never panics no answer can crash the client *)
+Theorem no_response_crashes_p drift tvp maxcap per from to peers evs :
+  (forall t u, tvp t u <> TVPanics) ->
+  h_nil from = false -> h_height from < two64 -> to < two64 -> 1 <= per ->
+  to - (h_height from + 1) <= maxcap ->
+  GetRangeByHeight_p drift tvp maxcap per from to peers evs <> Some RPanic /\
+  GetRangeByHeight_p drift tvp maxcap per from to peers evs <> Some RFuel.
+Proof.
+  intros Hnp H1 H2 H3 H4 H5. unfold GetRangeByHeight_p. rewrite (run_p_nopanic drift tvp maxcap from Hnp).
+  exact (no_response_crashes drift (recovered tvp) maxcap per from to peers evs H1 H2 H3 H4 H5).
+Qed.
+
+Theorem errors_have_a_cause_p drift tvp maxcap per from to peers evs e :
+  h_height from < two64 -> to < two64 -> 1 <= per ->
+  GetRangeByHeight_p drift tvp maxcap per from to peers evs = Some (RErr e) ->
+  (e = ERangeMixUp /\ to <= h_height from + 1) \/
+  (e = ECtx /\ In ECtxDone evs) \/ (e = EClosed /\ In EStop evs) \/
+  (e = ENotChain /\ exists p now fs, In (ERespond p now fs) evs).
+Proof.
+  intros H1 H2 H3 H4.
+  destruct (outcome_p_spec drift tvp maxcap per from to peers evs) as [E|[E _]]; [|congruence].
+  rewrite E in H4. exact (errors_have_a_cause _ _ _ _ _ _ _ _ _ H1 H2 H3 H4).
+Qed.
+
+(** examples: a verifier that panics when a header with odd identity 999 is verified against
+    the header directly below it *)
+Definition ex_panic_hdr (n : N) : hdr := Hdr false 1 n 0%Z 999 (n - 1) true.
+Definition ex_tvp (t u : hdr) : tvres_p :=
+  if (h_id u =? 999) && (h_height u =? h_height t + 1) then TVPanics else TVRes (ex_tv t u).
+
+Theorem no_response_crashes_refuted :
+  exists drift tvp maxcap per (from : hdr) (to : N) peers evs,
+    h_nil from = false /\ h_height from < two64 /\ to < two64 /\ 1 <= per /\
+    to - (h_height from + 1) <= maxcap /\
+    GetRangeByHeight_p drift tvp maxcap per from to peers evs = Some RPanic.
+Proof.
+  exists 0%Z, ex_tvp, 100, 3, (ex_hdr 10), 17, [0; 1],
+    [EDispatch 0 (Req 11 3); EDispatch 1 (Req 14 3);
+     ERespond 0 5%Z [FHdr (ex_hdr 11); FHdr (ex_hdr 12); FHdr (ex_hdr 13)];
+     ERespond 1 5%Z [FHdr (ex_panic_hdr 14); FHdr (Hdr false 1 15 0%Z 15 999 true); FHdr (Hdr false 1 16 0%Z 16 15 true)]].
+  split; [reflexivity|]. split; [vm_compute; reflexivity|]. split; [vm_compute; reflexivity|].
+  split; [vm_compute; discriminate|]. split; [vm_compute; discriminate|]. vm_compute. reflexivity.
+Qed.
+
+(** ** Get / GetByHeight with several trusted servers *)
+
+(** an honest server's answer to a one-header request for [h]: the header, or NOT_FOUND when it
+    does not hold it, or nothing (timeout, disconnect) *)
+Definition honest_one (h : hdr) (fs : list frame) : Prop :=
+  fs = [FHdr h] \/ fs = [FNotFound] \/ fs = [].
+
+Theorem perform_request_honest want h answers :
+  h_ok h = true -> (match want with Some w => w = h_chain h | None => True end) ->
+  Forall (honest_one h) answers -> In [FHdr h] answers ->
+  perform_request want answers = Some h.
+Proof.
+  intros Hok Hw Hall Hin. induction answers as [|fs rest IH]; [destruct Hin|].
+  cbn [perform_request]. inversion Hall as [|? ? Hfs Hrest]; subst.
+  destruct Hfs as [ -> | [ -> | -> ] ].
+  - rewrite (request_one_identity want h [] Hok Hw). reflexivity.
+  - destruct Hin as [Hx|Hin]; [discriminate|]. cbn. apply IH; assumption.
+  - destruct Hin as [Hx|Hin]; [discriminate|]. cbn. apply IH; assumption.
+Qed.
